@@ -150,7 +150,7 @@ class Ctx:
             fn()
         except Anchor as e:
             self.undecided(rule, key, "", "anchor missing: %s" % e)
-        except (KeyError, IndexError, TypeError, AttributeError, AssertionError) as e:
+        except Exception as e:  # noqa: BLE001 — an extractor that cannot read the code fails closed, it does not crash
             import traceback
             tb = traceback.extract_tb(sys.exc_info()[2])[-1]
             self.undecided(rule, key, "", "idiom not recognised by the extractor (%s: %s at %s:%d)"
